@@ -46,7 +46,7 @@ def gen(rng, tier):
         focus["density"] = 0.5
     spec = C.forward_spec(rng, tier, focus)
     mode = G.wchoice(rng, [("perm", 6), ("plain", 1.5), ("again", 1.5), ("history", 1.5), ("ids", 1.2)])
-    if mode == "ids" and any(t.get("fixw") is not None or t.get("fixf") is not None for t in spec["model"]["tasks"]):
+    if mode == "ids" and (spec["profile"].get("same_ids") or any(t.get("fixw") is not None or t.get("fixf") is not None for t in spec["model"]["tasks"])):
         mode = "perm"  # fixed-ID lists name resource IDs: not meaningful with default IDs
     spec["mode"] = mode
     n = len(spec["model"]["tasks"])
